@@ -393,6 +393,50 @@ fn emissions_funding(e: &Env, t: &mut T) {
     }
 }
 
+/// (C1) a second reward campaign on a bank whose first campaign is used up: the budget of bank 0 (rewards configured in
+/// the environment) is down to {0, 0.4, 25} while u0 still holds 10 unclaimed reward units; the emissions admin sets
+/// up rewards again with another mint. Either that is refused, or the new reward vault covers the new budget *and* what
+/// positions are still owed.
+fn second_campaign(e: &Env, t: &mut T) {
+    let w = &e.w;
+    let bank = w.banks[0].key;
+    let admin = w.roles.emissions;
+    for remaining in [0.0f64, 0.4, 25.0] {
+        for total in [20u64, 1_000_000] {
+            let mut s = e.s.clone();
+            let _ = process_tx(&mut s, &Tx::one(ix::settle_emissions(w.users[0].account, bank), &[act::stranger()]));
+            world::edit_bank(&mut s, &bank, |b| b.emissions_remaining = raw_i80(remaining).into());
+            world::edit_account(&mut s, &w.users[0].account, |a| {
+                for bal in a.lending_account.balances.iter_mut() {
+                    if bal.active != 0 && bal.bank_pk == bank {
+                        bal.emissions_outstanding = raw_i80(10.0).into();
+                    }
+                }
+            });
+            let spec = MintSpec::spl("c19-em-second", 6);
+            let mint = create_mint(&mut s, &w.payer, &w.mint_auth, &spec);
+            let funding = create_token_account(&mut s, &w.payer, "C19:emfund:second", &mint, &admin, false);
+            mint_to(&mut s, &w.mint_auth, &mint, &funding, false, 10_000_000_000);
+            let r = process_tx(&mut s, &Tx::one(ix::setup_emissions(w.group, admin, bank, mint, funding, spl_token::id(), marginfi_type_crate::constants::EMISSIONS_FLAG_LENDING_ACTIVE, 1_000, total), &[admin]));
+            t.cells += 1;
+            t.class(format!("second_campaign:remaining_{remaining}:{}", if r.ok() { "ok" } else { "refused" }));
+            if r.ok() {
+                let b = world::bank(&s, &bank);
+                let held = rf::qu(world::token_amount(&s, &ix::emissions_vault(&bank, &b.emissions_mint)));
+                let owed = rf::q(b.emissions_remaining) + rf::qi(10);
+                if owed > held {
+                    t.found.push(Found {
+                        clause: "C19.emissions_within_budget".into(),
+                        sig: "second_campaign".into(),
+                        detail: format!("with {remaining} of the first reward budget left and 10 reward units still owed to a position, a second setup_emissions (total {total}) was accepted: the bank now owes {:.3} in the new mint but its reward vault holds {:.0}", rf::qf64(&owed), rf::qf64(&held)),
+                        replay: json!({"model": "C19C1", "remaining": remaining, "total": total}),
+                    });
+                }
+            }
+        }
+    }
+}
+
 fn emissions_sequences(e: &Env, tier: Tier, t: &mut T) -> u64 {
     let w = &e.w;
     let bank = w.banks[0].key;
@@ -736,6 +780,7 @@ pub fn run(tier: Tier) -> Outcome {
     drawdowns(&e, &mut t);
     repointed_destination(&e, &mut t);
     emissions_funding(&e, &mut t);
+    second_campaign(&e, &mut t);
     let states = emissions_sequences(&e, tier, &mut t) + emissions_borrow_side(&e, tier, &mut t);
     reward_authorisation(&e, &mut t);
     let mut o = Outcome { level: "exploration".into(), ..Default::default() };
@@ -758,7 +803,7 @@ pub fn run(tier: Tier) -> Outcome {
         "evaluations": t.cells,
         "distinct_nontrivial": ok,
         "emission_states": states,
-        "rule": "(A) buckets {0, 0.25, 1, 1.75, 100.5, 250.5}^3 x liquidity {0, 1, 5, 300, 352, 353, 1e6} x {SPL bank, Token-2022 bank with a 1 % transfer fee}: each bucket falls by a whole number not above its whole part, the liquidity vault pays exactly that sum, each of insurance vault / fee vault / global fee wallet's canonical token account receives its own bucket's amount (net of the mint's fee), everything whole is paid when liquidity suffices; (A2) after the global fee admin rotated the fee wallet, with the group's cached copy {stale, propagated}, collection offered the token account of {previous, current} wallet: nothing may be paid to the previous wallet's; (A3) a bank of a group whose program fees are switched off still holds a program bucket: collection offered the canonical fee-wallet token account / an outsider's; (B) {withdraw_fees, withdraw_insurance, withdraw_fees_permissionless} x 12 signers x {fixed destination, another token account}; (B2) 12 signers x {own, foreign group in the group slot} re-point the fee destination, then a stranger withdraws permissionlessly into it: only the bank's own group admin can make that pay; (C0) setup_emissions x top-up through update_emissions_parameters x reward mint {SPL, Token-2022 without fee, 1 % fee, fee capped at 700} x totals {1, 99, 100, 1e6, 123456789} x top-ups {0, 1, 101, 1e6, 77777777}: the booked remaining budget never exceeds the tokens in the reward vault; (C) every sequence up to depth 4 (quick) / 5 of {deposit small / large, withdraw, withdraw-all, settle, claim} by two accounts, clock advances {30 d, 1 y} (at most two) and the emissions admin switching the lending rewards off / on (at most twice) x budgets {ample, nearly exhausted, zero rate, high rate, ample but initially switched off}: credited rewards = elapsed x size-before x rate / year capped by the remaining budget, where *elapsed* is measured by the reference's own ledger of when each position was last touched (not read back from the program's field) and nothing is earned while the rewards are switched off at the time of the touch; budget falls by exactly that and never below zero; (C2) the same judgement on a bank that rewards borrowers / both sides (u0 lends, u1 owes; interest switched off): every sequence up to depth 3 (quick) / 4 of {settle either, lender deposits, borrower repays / borrows a little, claim by either, 30-day advance (at most two)}: a debt earns iff borrowing rewards are on, a deposit iff lending rewards are on, each on its own size; (D) reward withdrawal {signed, permissionless} x 12 signers x {normal, in receivership, frozen, disabled} x {configured destination, another reward token account}",
+        "rule": "(A) buckets {0, 0.25, 1, 1.75, 100.5, 250.5}^3 x liquidity {0, 1, 5, 300, 352, 353, 1e6} x {SPL bank, Token-2022 bank with a 1 % transfer fee}: each bucket falls by a whole number not above its whole part, the liquidity vault pays exactly that sum, each of insurance vault / fee vault / global fee wallet's canonical token account receives its own bucket's amount (net of the mint's fee), everything whole is paid when liquidity suffices; (A2) after the global fee admin rotated the fee wallet, with the group's cached copy {stale, propagated}, collection offered the token account of {previous, current} wallet: nothing may be paid to the previous wallet's; (A3) a bank of a group whose program fees are switched off still holds a program bucket: collection offered the canonical fee-wallet token account / an outsider's; (B) {withdraw_fees, withdraw_insurance, withdraw_fees_permissionless} x 12 signers x {fixed destination, another token account}; (B2) 12 signers x {own, foreign group in the group slot} re-point the fee destination, then a stranger withdraws permissionlessly into it: only the bank's own group admin can make that pay; (C0) setup_emissions x top-up through update_emissions_parameters x reward mint {SPL, Token-2022 without fee, 1 % fee, fee capped at 700} x totals {1, 99, 100, 1e6, 123456789} x top-ups {0, 1, 101, 1e6, 77777777}: the booked remaining budget never exceeds the tokens in the reward vault; (C1) a second setup_emissions with another mint on a bank whose first budget is down to {0, 0.4, 25} while a position is still owed 10 units: refused, or the new vault covers budget plus what is owed; (C) every sequence up to depth 4 (quick) / 5 of {deposit small / large, withdraw, withdraw-all, settle, claim} by two accounts, clock advances {30 d, 1 y} (at most two) and the emissions admin switching the lending rewards off / on (at most twice) x budgets {ample, nearly exhausted, zero rate, high rate, ample but initially switched off}: credited rewards = elapsed x size-before x rate / year capped by the remaining budget, where *elapsed* is measured by the reference's own ledger of when each position was last touched (not read back from the program's field) and nothing is earned while the rewards are switched off at the time of the touch; budget falls by exactly that and never below zero; (C2) the same judgement on a bank that rewards borrowers / both sides (u0 lends, u1 owes; interest switched off): every sequence up to depth 3 (quick) / 4 of {settle either, lender deposits, borrower repays / borrows a little, claim by either, 30-day advance (at most two)}: a debt earns iff borrowing rewards are on, a deposit iff lending rewards are on, each on its own size; (D) reward withdrawal {signed, permissionless} x 12 signers x {normal, in receivership, frozen, disabled} x {configured destination, another reward token account}",
         "exhaustive": TRUNCATED.load(std::sync::atomic::Ordering::Relaxed) == 0,
         "cap_hit": if TRUNCATED.load(std::sync::atomic::Ordering::Relaxed) == 0 { serde_json::Value::Null } else { json!(format!("reward-sequence frontier capped at {} states per layer; {} states were dropped from the last layers", FRONTIER_CAP, TRUNCATED.load(std::sync::atomic::Ordering::Relaxed))) },
         "outcome_classes": t.classes,
